@@ -90,8 +90,17 @@ def nonZeroX (row : List (Option Vec)) : Nat :=
 def nonZeroY (row : List (Option Vec)) : Nat :=
   (row.filter fun o => match o with | some v => v.y != 0 | none => false).length
 
-/-- the row filter of `_build_matrix` -/
+def placed (row : List (Option Vec)) : Nat :=
+  (row.filter fun o => match o with | some v => v.x != 0 || v.y != 0 | none => false).length
+
+/-- the row filter of `_build_matrix` (after the repair of finding D8):
+    `non_zero_x = non_zero_y = np.count_nonzero((row_x != 0) | (row_y != 0))` -/
 def keepRow (ignoreFour : Bool) (row : List (Option Vec)) : Bool :=
+  let n := placed row
+  decide (n ≥ 3) && (!ignoreFour || decide (n < 4))
+
+/-- the row filter of the pinned upstream code (per-row non-zero counts), kept to state finding D8 -/
+def keepRowUpstream (ignoreFour : Bool) (row : List (Option Vec)) : Bool :=
   let nx := nonZeroX row
   let ny := nonZeroY row
   (decide (nx ≥ 3) || decide (ny ≥ 3)) && (!ignoreFour || (decide (nx < 4) && decide (ny < 4)))
